@@ -47,3 +47,24 @@ PROPS["C19"] = dict(
     trusted=["goja: String(), ToNumber(), JSON.stringify, conversion of JS strings to Go runes (well-formed strings only)"],
     assumptions=["Symbols, BigInts, custom inspection, lone surrogates are outside the claim"],
 )
+
+PROPS["C12"] = dict(
+    harness="urlsp", module="Cases.C12Check",
+    level_text="C12_refines_list: for every operation history the object as written (index-j compaction loops over a mutable array, the stale "
+               "copy in set, live-index iterators) makes exactly the observations of the WHATWG list; C12_sort_sorted/_stable; C12_roundtrip: "
+               "parse(serialize l) = l for all lists of byte-string pairs, resting on C12_table_ok, a decidable predicate evaluated on the escape "
+               "table regenerated from url/escape.go; C12_parse_spec: the parser is the WHATWG urlencoded parser for all byte strings",
+    level_note="Proof is about Model/SearchParams.v (hand-written mirror of urlsearchparams.go/nodeurl.go/escape.go). Tie: Gen/UrlTables.v (tables, "
+               "upperhex, ishex/unhex ranges from the source) + differential histories/parses in goja + WHATWG spec oracle on the implementation's "
+               "outputs. sort.Stable is modelled by a stable insertion sort (validated by the run). Mutation of the list from inside a forEach "
+               "callback is outside the modelled domain.",
+    rule="70% histories: constructor form (none/string/record/array of pairs/another URLSearchParams/iterator) + 1-10 operations over a small "
+         "alphabet of names/values with duplicates, empty, non-ASCII, reserved characters, live iterators interleaved with mutations, and "
+         "re-parse of toString(); 30% parsing of strings assembled from pieces with '%', '+', '&', '=', '?', malformed escapes; non-trivial = "
+         ">= 3 operations with a mutation, or a parsed string with a special byte; distinct by hash",
+    codes={"Diff1": "model replay differs from the observations", "Diff2": "model parse differs from new URLSearchParams(q)",
+           "SpecFail1": "observations differ from the WHATWG list (or toString()+parse does not give the same list)",
+           "SpecFail2": "new URLSearchParams(q) differs from the WHATWG urlencoded parser"},
+    trusted=["goja: iteration protocol, Array.from, JSON.stringify of results, UTF-16 <-> UTF-8 conversion of well-formed strings", "sort.Stable"],
+    assumptions=["%XX runs decoding to ill-formed UTF-8 are outside the round-trip claim", "names in record constructors are distinct and not integer-like"],
+)
